@@ -207,7 +207,7 @@ def specStr : SigV4Spec.SpecVerdict → String
 
 def authErrCodes : List String :=
   ["SignatureDoesNotMatch", "AccessDenied", "RequestTimeTooSkewed", "NotSignedUp", "XAmzContentSHA256Mismatch",
-   "InvalidRequest", "NotImplemented"]
+   "InvalidRequest", "NotImplemented", "AuthorizationHeaderMalformed", "AuthorizationQueryParametersError"]
 
 /-- two parameters of one name whose encoded values are not in ascending order -/
 def dupQueryUnsorted (q : List (Bytes × Bytes)) : Bool :=
